@@ -67,8 +67,21 @@ pub fn copy_file_bytes(infd: &File, outfd: &File, bytes: u64) -> Result<usize> {
 pub fn copy_file_offset(infd: &File, outfd: &File, bytes: u64, off: i64) -> Result<usize> {
     let mut off_in = off as u64;
     let mut off_out = off as u64;
-    try_copy_file_range(infd, Some(&mut off_in), outfd, Some(&mut off_out), bytes)
-        .unwrap_or_else(|| copy_range_uspace(infd, outfd, bytes as usize, off as usize))
+    let mut copied: u64 = 0;
+    // The kernel may copy fewer bytes than requested; retry until
+    // done (or EOF, signalled by a zero-length copy).
+    while copied < bytes {
+        match try_copy_file_range(infd, Some(&mut off_in), outfd, Some(&mut off_out), bytes - copied) {
+            Some(Ok(0)) => break,
+            Some(Ok(n)) => copied += n as u64,
+            Some(Err(e)) => return Err(e),
+            None => {
+                let rest = copy_range_uspace(infd, outfd, (bytes - copied) as usize, (off as u64 + copied) as usize)?;
+                return Ok(copied as usize + rest);
+            }
+        }
+    }
+    Ok(copied as usize)
 }
 
 /// Guestimate if file is sparse; if it has less blocks that would be
